@@ -173,6 +173,9 @@ class NameSanitizer:
             keyword.iskeyword(cls_name)  # "None", "True", "False" are keywords only when capitalised
             or keyword.iskeyword(cls_name.lower())
             or cls_name.lower() in NameSanitizer.RESERVED_NAMES
+            # typing names the generated modules use unqualified next to the model classes: a model class called
+            # Protocol breaks `class XClientProtocol(Protocol)`, one called Union breaks `Union[A, B]` aliases
+            or cls_name in ("Protocol", "Union")
         ):
             cls_name += "_"
         return cls_name
